@@ -635,4 +635,6 @@ def gen_spec(rng, size="small"):
     for it in mb:
         if it["rev"] is not None and site.norm(it["title"]) in targets and it["title"] in pinned_older:
             it["rev"] = None
-    return {"lang": lang, "pages": pages, "images": images, "metabook": mb}
+    # a metabook carries its revision ids either all as integers or all as strings (JSON metabooks,
+    # collection pages)
+    return {"lang": lang, "pages": pages, "images": images, "metabook": mb, "revs_as_str": rng.random() < 0.3}
